@@ -58,6 +58,11 @@ void check_forms(int n, int cls, uint64_t seed, bool real_in, Out& o) {
         got.emplace_back("rfft", to_cld(rfft(x)));
         FftPlanR plan(n);
         got.emplace_back("FftPlanR()", to_cld(plan(x)));
+        {
+            arr_cmplx yp(n);
+            static_cast<const BaseFftPlanR&>(plan).solve(x.data(), yp.data(), n);
+            got.emplace_back("FftPlanR::solve(ptr)", to_cld(yp));
+        }
         if (plan.size() != n) o.fail("plan:size", fmt("FftPlanR(%d).size()=%d", n, plan.size()));
         // real vs complex path and conjugate symmetry (each side is within 32 n eps of the symmetric truth)
         std::vector<cld> Xc = to_cld(fft(complex(x)));
@@ -184,7 +189,7 @@ static void large_gen(Ctx& ctx) {
     if (ctx.thorough()) { int k = 0; for (int n : lens) if (n > 20000 && k < 16) { fulls.push_back(n); ++k; } }
     for (int n : fulls) {
         if (!ctx.mine()) continue;
-        int real = n & 1;
+        int real = int((mix(ctx.seed, key_of(n, 0x4EA1)) >> 7) & 1);   // either input type for odd AND even lengths (was: parity of n)
         ctx.eval(Json::object().set("n", n).set("cls", int(S_GAUSS)).set("real", real).set("full", 1).set("seed", (long long)(mix(ctx.seed, key_of(n, 5)) >> 16)));
     }
 }
@@ -276,6 +281,7 @@ static void cz_gen(Ctx& ctx) {
     ctx.rc("random", ctx.by_tier(4000, 40000), [&]() {
         int n = pick_log(1, maxn);
         int m = pick(1, 2 * n);
+        if (pick(0, 5) == 0) m = flip() ? pick(2 * n, 8 * n + 3) : std::max(1, n / pick(2, 16));   // many more / many fewer output points than input samples
         int tc = pick(0, 5);
         double theta = 0;
         const char* tn = "";
